@@ -111,7 +111,17 @@ MDropped ==
   /\ Req("C12", Ev.live = 0 /\ s.pend = {})
   /\ s' = s
 
-Mmap == Step("Mmap") /\ s' = IF Ev.ok THEN [s EXCEPT !.pend = @ \cup {Ev.name}] ELSE s
+\* memory the rest of the process mapped at an address the library had given back: still mapped, byte for byte
+Foreign ==
+  /\ Step("Foreign")
+  /\ Req("C03", Ev.mapped /\ Ev.intact)
+  /\ Req("C12", Ev.mapped)
+  /\ s' = s
+
+Mmap == Step("Mmap") /\ Req("C03", Has(Ev, "clobbers_foreign") => ~Ev.clobbers_foreign)
+        /\ Req("C12", Has(Ev, "clobbers_foreign") => ~Ev.clobbers_foreign)
+        /\ Req("C11", Has(Ev, "clobbers_foreign") => ~Ev.clobbers_foreign)
+        /\ s' = IF Ev.ok THEN [s EXCEPT !.pend = @ \cup {Ev.name}] ELSE s
 Munmap ==
   /\ Step("Munmap")
   /\ Req("C11", s.phase # "dropped" /\ s.ins.outcome = "none" => Ev.name \in s.pend)
@@ -127,7 +137,7 @@ Write ==
 Other == l <= Last(sc) /\ Ev.ev \in {"Note", "Mprotect", "Flush", "Target"}
          /\ l' = l + 1 /\ sc' = sc /\ s' = s
 
-TraceNext == MInstalled \/ MState \/ MCalled \/ MDropped \/ Place \/ Installed \/ Called \/ Neighbour \/ Dropped \/ ChildExit \/ Mmap \/ Munmap \/ Write \/ Other
+TraceNext == Foreign \/ MInstalled \/ MState \/ MCalled \/ MDropped \/ Place \/ Installed \/ Called \/ Neighbour \/ Dropped \/ ChildExit \/ Mmap \/ Munmap \/ Write \/ Other
 TraceSpec == TraceInit /\ [][TraceNext]_tvars
 Track == TrackProgress(sc, l)
 Post == PrintProgress
